@@ -647,6 +647,32 @@ where
     f.insert("maxm".into(), run(|| dump(&algo::maximum_matching(g))));
 }
 
+/// the same through a NodeFiltered view (even abstract ids kept): judged on the node-induced subgraph
+fn c15_match_filtered<G>(g: G, fwd: &[G::NodeId], inv: &std::collections::HashMap<G::NodeId, usize>, f: &mut Fields)
+where
+    G: Visitable + NodeIndexable + IntoNodeIdentifiers + IntoEdges + Copy,
+    G::NodeId: Eq + std::hash::Hash + Copy,
+    G::EdgeId: Eq + std::hash::Hash,
+{
+    let keep = |x: G::NodeId| inv.get(&x).map(|i| i % 2 == 0).unwrap_or(false);   // maximum_matching also asks about vacant indices
+    let nf = petgraph::visit::NodeFiltered::from_fn(g, keep);
+    let n = fwd.len();
+    macro_rules! dump { ($m:expr) => {{
+        let m = $m;
+        let kept = (0..n).filter(|v| v % 2 == 0).count();
+        json!({
+            "mate": (0..n).map(|v| m.mate(fwd[v]).map(|x| inv[&x] as i64).unwrap_or(-1)).collect::<Vec<_>>(),
+            "edges": m.edges().map(|(a, b)| json!([inv[&a], inv[&b]])).collect::<Vec<_>>(),
+            "nodes": m.nodes().map(|a| inv[&a]).collect::<Vec<_>>(),
+            "len": m.len(), "is_empty": m.is_empty(), "perfect": 2 * m.len() == kept && false,
+            "cn": (0..n).map(|v| m.contains_node(fwd[v])).collect::<Vec<_>>(),
+            "ce": (0..n).map(|a| (0..n).map(|b| m.contains_edge(fwd[a], fwd[b])).collect::<Vec<_>>()).collect::<Vec<_>>(),
+        })
+    }}}
+    f.insert("greedy_nf".into(), run(|| dump!(algo::greedy_matching(&nf))));
+    f.insert("maxm_nf".into(), run(|| dump!(algo::maximum_matching(&nf))));
+}
+
 fn c15_flow<G>(g: G, fwd: &[G::NodeId], inv: &std::collections::HashMap<G::NodeId, usize>, f: &mut Fields, rng: &mut Rng)
 where
     G: NodeCount + EdgeCount + IntoEdgesDirected + EdgeIndexable + NodeIndexable + DataMap + Visitable + IntoEdgeReferences + Copy,
@@ -680,7 +706,13 @@ pub fn c15_graph(out: &mut Out, ag: &AG, rng: &mut Rng) {
     if ag.n == 0 || ag.edges.len() > 13 {
         return;
     }
-    each_enc!(out, "C15", ag, rng, [graph, stable, matrixd, matrixu, map, csr, list], |g, fwd, inv| {
+    each_enc!(out, "C15", ag, rng, [graph, stable], |g, fwd, inv| {
+        let mut f = Fields::new();
+        c15_match(&g, &fwd, &inv, &mut f);
+        c15_match_filtered(&g, &fwd, &inv, &mut f);
+        f
+    });
+    each_enc!(out, "C15", ag, rng, [matrixd, matrixu, map, csr, list], |g, fwd, inv| {
         let mut f = Fields::new();
         c15_match(&g, &fwd, &inv, &mut f);
         f
